@@ -208,6 +208,11 @@ func (s *Session) RunConcurrent(o ConcOpts) *ConcResult {
 						it := &Item{ID: n.G*100000 + len(pl.items) + 1, Msg: ev.Msg{Type: st, From: n.G, To: rc.G, Kind: kind, Fan: len(rcs)}, Wire: wire, From: n, To: rc, Orig: m, Round: typeRound(st)}
 						pl.items = append(pl.items, it)
 						e.Out = append(e.Out, it.Msg)
+						if s.Mutate != nil { // fault injection: one message altered on its way to one recipient
+							if w := s.Mutate(it); w != nil {
+								it.Wire = w
+							}
+						}
 						boxes[rc].push(it)
 					}
 					continue
